@@ -476,6 +476,18 @@ func (s *sim) editPool(st Step) {
 			t.Spec.Taints = append(t.Spec.Taints, taintOf(st.Key))
 		case "taint-":
 			t.Spec.Taints = lo.Reject(t.Spec.Taints, func(x corev1.Taint, _ int) bool { return x.Key == "example.com/"+st.Key })
+		case "setTaints", "setStartupTaints":
+			var ts []corev1.Taint
+			for _, k := range strings.Split(st.Val, ",") {
+				if k != "" && k != "-" {
+					ts = append(ts, taintOf(k))
+				}
+			}
+			if st.What == "setTaints" {
+				t.Spec.Taints = ts
+			} else {
+				t.Spec.StartupTaints = ts
+			}
 		case "taintReorder":
 			r := t.Spec.Taints
 			for i, j := 0, len(r)-1; i < j; i, j = i+1, j-1 {
@@ -490,7 +502,11 @@ func (s *sim) editPool(st Step) {
 				t.Labels = lo.Assign(t.Labels, map[string]string{st.Key: st.Val})
 			}
 		case "tannotation":
-			t.Annotations = lo.Assign(t.Annotations, map[string]string{st.Key: st.Val})
+			if st.Val == "-" {
+				delete(t.Annotations, st.Key)
+			} else {
+				t.Annotations = lo.Assign(t.Annotations, map[string]string{st.Key: st.Val})
+			}
 		case "expireAfter":
 			t.Spec.ExpireAfter = v1.MustParseNillableDuration(st.Val)
 		case "tgp":
@@ -681,6 +697,14 @@ func (s *sim) obs(after string) {
 		}
 		cls := map[string]string{}
 		for k, o := range ops {
+			// normalised operator classes: Gt / Gte / Lt / Lte = "bounded"
+			o = lo.Uniq(lo.Map(o, func(x string, _ int) string {
+				switch x {
+				case "Gt", "Gte", "Lt", "Lte":
+					return "bounded"
+				}
+				return x
+			}))
 			sort.Strings(o)
 			kc := "custom"
 			if v1.WellKnownLabels.Has(k) {
